@@ -98,6 +98,12 @@ def check(F, rep, tier):
         src_old = any((mir.callee(t) or "").endswith("checked_bump") and any("post" in o.path_str() for o in mir.trace_op(f, t[2][0], transparent=mir.TRANSPARENT + ("Option::<T>::unwrap_or",))) for bi, t in f.calls())
         if adds and src_old: rep.ok("R03.4", "process_post ADDS the bump to the tag's post (old + amount)", nontrivial_key="adds")
         else: rep.bad("R03.4", "post-assigned", "process_post does not add the bump amount to the existing post value", f.where())
+    # ---- R03.6 dependencies on the git layer and on the numeric width of the SemVer renderer ------------------------------------
+    # strict growth with distance needs `distance` to count every commit in <tag>..HEAD; V > X.Y.Z for an uncommitted change needs
+    # `dirty` to see every kind of change; exactly X.Y.Z at the tag needs the renderer to keep 64-bit core numbers.
+    core.borrow(F, rep, "c02", "C02", "R03.6", ("argv:calculate_distance#0", "distance-range"), "distance counts all commits after the tag")
+    core.borrow(F, rep, "c02", "C02", "R03.6", ("argv:is_dirty#0",), "dirty sees staged, unstaged, untracked and submodule changes")
+    core.borrow(F, rep, "c07", "C07", "R03.6", ("narrowing-parse:",), "SemVer rendering keeps 64-bit core numbers")
     return core.finish(rep, explanation=EXPL, assumptions=ASSUME, trusted=TRUST)
 
 def override_dirty_table(F, f):
